@@ -1127,6 +1127,8 @@ Qed.
 (* ------------------------------------------------------------------------------------------
    integer-only tables *)
 Definition code8 (v : Z) : Prop := -128 <= v <= 255.   (* an int8 or uint8 code / zero point *)
+(* input code and input zero point belong to the same 8-bit type *)
+Definition same8 (x zi : Z) : Prop := (-128 <= x <= 127 /\ -128 <= zi <= 127) \/ (0 <= x <= 255 /\ 0 <= zi <= 255).
 
 Lemma small_shift_in32 d s : -255 <= d <= 255 -> 9 <= s -> in32 (d * 2 ^ Z.max 0 (31 - s)) /\
   Z.abs (d * 2 ^ Z.max 0 (31 - s)) <= 1069547520.
@@ -1138,12 +1140,12 @@ Proof.
 Qed.
 
 Lemma lut_lrelu_correct_lemma zi zo ids idsh als alsh qmin qmax x :
-  code8 zi -> code8 zo -> code8 x ->
+  same8 x zi -> code8 zo ->
   in_int 32 ids = true -> in_int 32 als = true -> 9 <= idsh <= 62 -> 9 <= alsh <= 62 ->
   vela_lrelu_entry zi zo ids idsh 1 als alsh qmin qmax x =
     Some (LeakyReluRef zi zo ids (31 - idsh) als (31 - alsh) qmin qmax x).
 Proof.
-  unfold code8. intros Hzi Hzo Hx Hids Hals Hs1 Hs2.
+  unfold code8, same8. intros Hx Hzo Hids Hals Hs1 Hs2.
   apply in_int32_true in Hids. apply in_int32_true in Hals.
   unfold vela_lrelu_entry, LeakyReluRef. cbv zeta. rewrite Z.mul_1_l.
   rewrite (cast32_id (x - zi)) by (unfold in32; lia).
@@ -1193,4 +1195,110 @@ Proof. vm_compute. repeat split. Qed.
 Example quantize_fold_example :
   vela_requant_entry (-128) (-128) 1073741824 31 (-128) 127 100 = Some (-14) /\
   RequantizeRef 0 0 1518500250 1 (-32768) 32767 (-20000) = -28284.
+Proof. vm_compute. repeat split. Qed.
+
+(* ------------------------------------------------------------------------------------------
+   hard-swish table *)
+Lemma gtb_31_sub a : (31 - a >? 0) = (a <? 31).
+Proof. destruct (Z.gtb_spec (31 - a) 0); destruct (Z.ltb_spec a 31); lia. Qed.
+Lemma ltb_31_sub a : (31 - a <? 0) = (a >? 31).
+Proof. destruct (Z.ltb_spec (31 - a) 0); destruct (Z.gtb_spec a 31); lia. Qed.
+
+Lemma rdbpot_c_half x e : 1 <= e -> 2 * Z.abs (rdbpot_c x e) <= Z.abs x + 1.
+Proof.
+  intros He. pose proof (rdbpot_c_bounds x e He) as [U L].
+  pose proof (pow2_pos (e - 1) ltac:(lia)) as Hp. rewrite (pow2_half e ltac:(lia)) in *.
+  set (p := 2 ^ (e - 1)) in *. set (r := rdbpot_c x e) in *.
+  destruct (Z.le_ge_cases 0 x); destruct (Z.le_ge_cases 0 r); nia.
+Qed.
+
+Definition zo_ok (zo osh : Z) : Prop := -128 <= zo <= 127 \/ (0 <= zo <= 255 /\ 32 <= osh).
+
+Lemma hs_tail R pre zo osh qmin qmax :
+  in16 R -> in16 pre -> Z.abs pre <= 32640 -> zo_ok zo osh -> 31 <= osh <= 46 -> qmin <= qmax ->
+  obind (G.saturating_mul16 (Z.shiftr (R + 32768) 1) pre)
+        (fun lut_result =>
+           obind (G.rounding_divide_by_pot lut_result (if 31 - osh <? 0 then - (31 - osh) else 0))
+                 (fun r => Some (clampZ qmin qmax (r + zo))))
+  = Some (Z.max (Z.min (cast16 (RoundingDivideByPOT16
+                                  (SaturatingDoublingHighMul16 (cast16 (Z.shiftr (cast32 (R + 32768)) 1)) pre)
+                                  (- (31 - osh)) + zo)) qmax) qmin).
+Proof.
+  intros IR Ipre Apre Hzo Hosh Hq.
+  rewrite (cast32_id (R + 32768)) by (unfold in32, in16 in *; lia).
+  rewrite shiftr_div by lia. change (2 ^ 1) with 2.
+  assert (Iq : 0 <= (R + 32768) / 2 <= 32767).
+  { unfold in16 in IR. split; [apply Z.div_pos; lia|]. assert ((R + 32768) / 2 < 32768) by (apply Z.div_lt_upper_bound; lia). lia. }
+  set (q := (R + 32768) / 2) in *. assert (Iq16 : in16 q) by (unfold in16; lia).
+  rewrite (cast16_id q Iq16).
+  rewrite (sat_mul16_gen_closed q pre Iq16 Ipre). cbn [obind].
+  rewrite (SDHM16_closed q pre Iq16 Ipre). set (o1 := sdhm16_c q pre).
+  assert (Io1 : in16 o1) by (apply sdhm16_c_in16; assumption).
+  assert (Ao1 : Z.abs o1 <= 32640) by (pose proof (sdhm16_c_abs q pre Iq16 Ipre); lia).
+  assert (Es : (if 31 - osh <? 0 then - (31 - osh) else 0) = osh - 31) by (destruct (Z.ltb_spec (31 - osh) 0); lia).
+  rewrite Es. replace (- (31 - osh)) with (osh - 31) by lia.
+  rewrite (rdbpot_gen_closed o1 (osh - 31) (in16_in32 _ Io1) ltac:(lia)). cbn [obind].
+  rewrite (RDBPOT16_closed o1 (osh - 31) Io1 ltac:(lia)). set (o2 := rdbpot_c o1 (osh - 31)).
+  assert (Ao2 : Z.abs o2 <= 32640) by (pose proof (rdbpot_c_abs o1 (osh - 31) ltac:(lia)); lia).
+  assert (I3 : in16 (o2 + zo)).
+  { destruct Hzo as [Hz|[Hz Ho]]; [unfold in16; lia|].
+    pose proof (rdbpot_c_half o1 (osh - 31) ltac:(lia)). fold o2 in H. unfold in16. lia. }
+  rewrite (cast16_id _ I3). f_equal. unfold clampZ. lia.
+Qed.
+
+Lemma lut_hardswish_correct_lemma zi zo os osh rs rsh qmin qmax x :
+  same8 x zi -> zo_ok zo osh ->
+  in_int 32 os = true -> in_int 32 rs = true -> 31 <= osh <= 46 -> 0 <= rsh <= 46 -> qmin <= qmax ->
+  vela_hardswish_entry zi zo os osh rs rsh qmin qmax x =
+    Some (HardSwishRef zi zo (DownScaleInt32ToInt16Multiplier rs) (31 - rsh)
+                       (DownScaleInt32ToInt16Multiplier os) (31 - osh) qmin qmax x).
+Proof.
+  intros Hx Hzo Hos Hrs Hosh Hrsh Hq.
+  destruct (downscale_multiplier_eq_lemma os Hos) as (E1 & I1 & _).
+  destruct (downscale_multiplier_eq_lemma rs Hrs) as (E2 & I2 & _).
+  unfold vela_hardswish_entry, HardSwishRef. rewrite E1, E2. cbn [obind]. cbv zeta.
+  set (os16 := DownScaleInt32ToInt16Multiplier os) in *. set (rs16 := DownScaleInt32ToInt16Multiplier rs) in *.
+  apply in_int16_true in I1. apply in_int16_true in I2.
+  change (Z.shiftl 1 7) with 128. change (Z.shiftl 1 15) with 32768.
+  assert (Hd : -255 <= x - zi <= 255) by (unfold same8 in Hx; lia).
+  rewrite (cast16_id (x - zi)) by (unfold in16; lia).
+  assert (Ih : in16 ((x - zi) * 128)) by (unfold in16; lia).
+  rewrite (cast16_id _ Ih). set (hires := (x - zi) * 128) in *.
+  rewrite (srdhm16_gen_closed hires os16 Ih I1). cbn [obind].
+  rewrite (SRDHM16_closed hires os16 Ih I1). set (pre := srdhm16_c hires os16) in *.
+  assert (Ipre : in16 pre) by (apply srdhm16_c_in16; assumption).
+  assert (Apre : Z.abs pre <= 32640) by (pose proof (srdhm16_c_abs hires os16 Ih I1); unfold hires in *; lia).
+  rewrite (chk_int16_intro hires Ih). cbn [obind].
+  rewrite (gtb_31_sub rsh), (ltb_31_sub rsh).
+  destruct (Z.ltb_spec rsh 31) as [Hlt|Hge].
+  - (* multiplier exponent > 0: two saturating left shifts *)
+    destruct (Z.gtb_spec rsh 31); [lia|].
+    replace (31 - rsh - 1) with (30 - rsh) by lia.
+    rewrite (shift_left16_gen_closed hires (30 - rsh) Ih ltac:(lia)). cbn [obind].
+    rewrite (SaturatingLeftShift16_closed hires (30 - rsh) Ih ltac:(lia)).
+    set (r1 := clamp16 (hires * 2 ^ (30 - rsh))). assert (I1' : in16 r1) by apply clamp16_in16.
+    rewrite (srdhm16_gen_closed r1 rs16 I1' I2). cbn [obind].
+    rewrite (SRDHM16_closed r1 rs16 I1' I2). set (r2 := srdhm16_c r1 rs16).
+    assert (I2' : in16 r2) by (apply srdhm16_c_in16; assumption).
+    rewrite (shift_left16_gen_closed r2 1 I2' ltac:(lia)). cbn [obind].
+    rewrite (SaturatingLeftShift16_closed r2 1 I2' ltac:(lia)).
+    apply hs_tail; try assumption. apply clamp16_in16.
+  - destruct (Z.gtb_spec rsh 31) as [Hgt|Hle].
+    + (* multiplier exponent < 0: rounding right shift *)
+      rewrite (srdhm16_gen_closed hires rs16 Ih I2). cbn [obind].
+      rewrite (SRDHM16_closed hires rs16 Ih I2). set (r2 := srdhm16_c hires rs16).
+      assert (I2' : in16 r2) by (apply srdhm16_c_in16; assumption).
+      rewrite (rdbpot_gen_closed r2 (rsh - 31) (in16_in32 _ I2') ltac:(lia)). cbn [obind].
+      replace (- (31 - rsh)) with (rsh - 31) by lia.
+      rewrite (RDBPOT16_closed r2 (rsh - 31) I2' ltac:(lia)).
+      apply hs_tail; try assumption. apply rdbpot_c_in16; [assumption|lia].
+    + rewrite (srdhm16_gen_closed hires rs16 Ih I2). cbn [obind].
+      rewrite (SRDHM16_closed hires rs16 Ih I2).
+      apply hs_tail; try assumption. apply srdhm16_c_in16; assumption.
+Qed.
+
+Example lut_hardswish_example :
+  vela_hardswish_entry (-128) (-128) 1073741824 38 1832519379 29 (-128) 127 0 = Some 0 /\
+  HardSwishRef (-128) (-128) 27962 2 16384 (-7) (-128) 127 0 = 0 /\
+  vela_hardswish_entry (-128) (-128) 1073741824 38 1832519379 29 (-128) 127 (-100) = Some (-110).
 Proof. vm_compute. repeat split. Qed.
